@@ -625,6 +625,7 @@ def run_vm(run, cases, count=True):
                     run.coverage["skipped_singular"] = run.coverage.get("skipped_singular", 0) + 1
                     continue
                 m["M"] = M
+                m["base"] = base
             m["spec_i"] = len(ops)
             ops.append(op_vmat("spec", N, ndim, call["transform"], delt, orig, V1, V2, M))
             # --- Impl: the frames / particle count the regenerated index expressions select
@@ -650,10 +651,11 @@ def run_vm(run, cases, count=True):
             if call["transform"]:
                 absA = np.abs(A)
                 bound = 4096 * EPS * (absA.T @ np.abs(m["M"]) @ absA) + 1e-12
-                rsb = 4096 * EPS * (np.abs(A.T @ m["M"]) @ absA).reshape(N * ndim, N, ndim).sum(axis=1) + 1e-12
+                Ab = m["base"]     # the raw matrix the real code built (row-sum bound of ITS product Aᵀ·M·A)
+                rsb = 4096 * EPS * (np.abs(Ab.T @ m["M"]) @ np.abs(Ab)).reshape(N * ndim, N, ndim).sum(axis=1) + 1e-12
             else:
                 bound = 1e-9 * np.maximum(1.0, np.abs(S))
-                rsb = 64 * N * EPS * np.abs(A).reshape(N, N, ndim).sum(axis=1) + 1e-13
+                rsb = None         # raw matrix: bound from the returned rows themselves (below)
             # ---- correspondence: real vs Impl
             if "impl_err" in m:
                 if "error" not in real:
@@ -670,7 +672,7 @@ def run_vm(run, cases, count=True):
                     bad = np.argwhere(~(np.abs(R - I) <= b2))
                     if len(bad):
                         r0, c0 = bad[0]
-                        dis.append((c, f"VolumeMatrix({tag})[{r0},{c0}] = {R[r0, c0]!r} vs model {I[r0, c0]!r} (bound {b2[r0, c0]:.2e})"))
+                        dis.append((c, f"VolumeMatrix({tag})[{r0},{c0}] = {float(R[r0, c0])!r} vs model {float(I[r0, c0])!r} (bound {b2[r0, c0]:.2e})"))
             # ---- the property statement: real vs Spec of the REQUESTED frame
             if real.get("mutated"):
                 sf.append((c, "VolumeMatrix:mutates-input", f"VolumeMatrix({tag}) changed the snapshot arrays"))
@@ -689,10 +691,12 @@ def run_vm(run, cases, count=True):
                     sf.append((c, "VolumeMatrix:shape", f"VolumeMatrix({tag}) returned shape {R.shape}, expected {S.shape}"))
                 else:
                     rs = R.reshape(R.shape[0], N, ndim).sum(axis=1)
+                    if rsb is None:
+                        rsb = 64 * N * EPS * np.abs(R).reshape(R.shape[0], N, ndim).sum(axis=1) + 1e-13
                     badr = np.argwhere(~(np.abs(rs) <= rsb))
                     if len(badr):
                         r0, d0 = badr[0]
-                        sf.append((c, "VolumeMatrix:rowsum", f"VolumeMatrix({tag}): row {r0} sums to {rs[r0, d0]!r} over displaced "
+                        sf.append((c, "VolumeMatrix:rowsum", f"VolumeMatrix({tag}): row {r0} sums to {float(rs[r0, d0])!r} over displaced "
                                                              f"coordinate {d0} (rounding bound {rsb[r0, d0]:.2e})"))
                     bad = np.argwhere(~(np.abs(R - S) <= bound))
                     if len(bad):
@@ -700,8 +704,8 @@ def run_vm(run, cases, count=True):
                         other = ""
                         if c["T"] > 1 and not call["transform"]:
                             other = " — not the volume response of the requested frame"
-                        sf.append((c, "VolumeMatrix:entries", f"VolumeMatrix({tag})[{r0},{c0}] = {R[r0, c0]!r}, the definition on frame "
-                                                              f"{t} gives {S[r0, c0]!r} (bound {bound[r0, c0]:.2e}){other}"))
+                        sf.append((c, "VolumeMatrix:entries", f"VolumeMatrix({tag})[{r0},{c0}] = {float(R[r0, c0])!r}, the definition on frame "
+                                                              f"{t} gives {float(S[r0, c0])!r} (bound {bound[r0, c0]:.2e}){other}"))
                     if call["out"]:
                         sv = real.get("saved")
                         if sv is None or sv.shape != R.shape or not np.array_equal(sv, R):
